@@ -31,19 +31,35 @@ def child(spec, timeout=3000):
 
 def run(tier, seed):
     run = Run("C13", tier, seed)
+    from concurrent.futures import ThreadPoolExecutor
+
+    from ..common import NPROC
+
     spec = {"depth": 4 if tier == "quick" else 5, "backends": ["llvm"] if tier == "quick" else ["llvm", "cffi"]}
-    p = child(spec)
-    if p.returncode != 0:
-        what = (p.stderr or "")[-1500:]
-        kind = "process-crash" if p.returncode < 0 or "free()" in what or "double free" in what or "corrupt" in what else "harness-error"
-        run.report({"signature": {"kind": kind}, "what": f"history explorer process exited with {p.returncode}: {what}",
-                    "case": spec})
+    parts = NPROC
+    specs = [{**spec, "part": (k + seed) % parts, "parts": parts} for k in range(parts)]
+    with ThreadPoolExecutor(parts) as ex:
+        procs = list(ex.map(child, specs))
+    res = {"states": 0, "transitions": 0, "nontrivial": 0, "sample": None}
+    died = False
+    for sp, p in zip(specs, procs, strict=True):
+        if p.returncode != 0:
+            what = (p.stderr or "")[-1500:]
+            kind = "process-crash" if p.returncode < 0 or "free()" in what or "double free" in what or "corrupt" in what else "harness-error"
+            run.report({"signature": {"kind": kind}, "what": f"history explorer process exited with {p.returncode}: {what}",
+                        "case": sp})
+            died = True
+            continue
+        r = json.loads(p.stdout)
+        for k, v in r["stats"].items():
+            run.counters[k] += v
+        run.report_all(r["findings"])
+        for k in ("states", "transitions", "nontrivial"):
+            res[k] += r[k]
+        res["sample"] = res["sample"] or r["sample"]
+    if died and not res["states"]:
         return run.finish(states=1, transitions=1, traces_validated=0, evaluations=1, distinct_nontrivial=0,
-                          rule="explorer process died", exhaustive=False)
-    res = json.loads(p.stdout)
-    for k, v in res["stats"].items():
-        run.counters[k] += v
-    run.report_all(res["findings"])
+                          rule="explorer processes died", exhaustive=False)
     if res["sample"]:
         run.sample({"history": res["sample"], "checked_after_every_operation":
                     "interposer state of every kernel-allocated array vs reference model; values read back"})
@@ -56,8 +72,10 @@ def run(tier, seed):
     return run.finish(
         states=res["states"], transitions=res["transitions"], traces_validated=res["transitions"],
         evaluations=res["transitions"], distinct_nontrivial=res["nontrivial"],
-        rule=f"breadth-first search to depth {spec['depth']} over histories of the operations EVAL (sparse / dense / "
-             f"scalar output, back ends {spec['backends']}), ALIAS, STRUCT (keep only the C struct), READ, PICKLE, FEED "
+        rule=f"breadth-first search to depth {spec['depth']} (partitioned over {parts} processes by first operation; "
+             "states are deduplicated within a partition) over histories of the operations EVAL (sparse vector / dense "
+             "vector / scalar / block-sparse matrix with a zero-sized dense dimension / block-sparse matrix output, "
+             f"back ends {spec['backends']}), ALIAS, STRUCT (keep only the C struct), READ, PICKLE, FEED "
              "(use as an input of another evaluate), DEL, GC on three name slots; a state is rebuilt by replaying "
              "its history on fresh objects and deduplicated by a canonical form (slot -> object class, view, kind, "
              "origin; pending garbage). After every operation: every array of every referenced result is LIVE in the "
